@@ -300,6 +300,8 @@ class Run(object):
                 v["clause"], v["site"], json.dumps(v["observed"])[:300], json.dumps(v["expected"])[:300],
                 json.dumps(v["case"])[:600]))
             print("VIOLATION property=%s replay=%s" % (self.pid, p))
+        for (cl, st), n in sorted(t.viol_count.items()):
+            sys.stderr.write("  violations: clause=%s site=%s count=%d\n" % (cl, st, n))
         sys.stderr.write("[%s] tier=%s seed=%d states=%d transitions=%d conformance=%d outcomes=%d "
                          "violations=%d known=%d wall=%.1fs\n" % (
                              self.pid, self.tier, self.seed, t.states, t.transitions, t.conform,
